@@ -15,8 +15,11 @@ CLAIMED = {
           "length bytes through a field-boundary map, truncation, extension, segment dup/drop/swap, length-prefix rewrites) and a "
           "byzantine re-encoder re-frames them (non-minimal varints, witness flag without witnesses, superfluous null issuance, "
           "unknown confidential prefix). Oracle: bytes and reported length at the seam equal the reference; errors never yield Ok; "
-          "whatever deserialize accepts re-encodes to exactly the delivered bytes; canonical values round-trip."),
-    design_ref="DESIGN.md §4 C01, appendix A/E",
+          "whatever deserialize accepts re-encodes to exactly the delivered bytes; canonical values round-trip. Workload: generated "
+          "canonical values, values out of the library's constructors and blinding functions (Default impls, new_fee, blind_issuances, "
+          "Transaction::blind, from_tx/extract_tx), and the repository's own vectors (30 real transactions, 6 blocks and the objects "
+          "cut out of them), whose refusal or changed re-encoding is reported."),
+    design_ref="DESIGN.md §4 C01, §12.1-12.2, appendix A/E",
     note=TRUST + " Reference bytes are the library's own serialize() on a perfect medium, so a change made consistently to encoder and decoder is invisible (conformance with Elements Core is not C01).",
     technique="deterministic simulation with fault injection: I/O seams (SimReader/SimWriter) + byte-fault medium + byzantine re-encoder, seeded search, replayable cases",
   ),
@@ -25,8 +28,11 @@ CLAIMED = {
     text=("Simulated wallet -> medium -> verifier/receivers pipeline: the RNG handed to Transaction::blind is a simulator-owned seam "
           "(uniform, low-entropy and sticky personalities), the blinded transaction travels serialized through chunking/EINTR "
           "reader/writer seams, then verify_tx_amt_proofs must accept it and every marked output must unblind with its receiver key "
-          "to the original asset/value and to exactly the factors the blinder reported, which must reproduce the commitments and nonce."),
-    design_ref="DESIGN.md §4 C04",
+          "to the original asset/value and to exactly the factors the blinder reported, which must reproduce the commitments and nonce. "
+          "A second wallet (scenario manual) assembles the same transactions from the public output constructors (new_not_last_"
+          "confidential / to_non_last_confidential / with_txout_secrets, then new_last_confidential / with_secrets_last) with any marked "
+          "output blinded last and with surjection-domain entries passed as bare commitments; same postconditions."),
+    design_ref="DESIGN.md §4 C04, §12.2",
     note=TRUST + " Soundness of the zero-knowledge proofs (secp256k1-zkp) is trusted. Workload postconditions dominate; the simulator contributes the RNG seam and the serialized hand-over.",
     technique="deterministic simulation: RNG seam with adversarial personalities + serialized hop through I/O seams, seeded workload search",
   ),
@@ -36,8 +42,9 @@ CLAIMED = {
           "exactly one tamper per delivery from the classes the property lists (explicit amount/asset, commitment replace/swap, "
           "range/surjection proof remove/swap/foreign/bit-corrupt, script of a blinded output, issuance amount, differing or "
           "wrong-length spent outputs) must make verification fail (wrong length specifically as UtxoInputLenMismatch); all-explicit "
-          "transactions are compared with a u128 per-asset reference including the zero-value rule."),
-    design_ref="DESIGN.md §4 C05",
+          "transactions are compared with a u128 per-asset reference including the zero-value rule. The same tampers are applied to the "
+          "repository's ten real verifying (transaction, spent outputs) vectors (scenario tamper-corpus)."),
+    design_ref="DESIGN.md §4 C05, §12.1",
     note=TRUST + " Only the listed single-location tamper classes are injected; a changed generator of a confidential input is asserted only when every surjection ring covers the whole domain.",
     technique="deterministic simulation: single-fault tamper injection in the medium between producer and verifier + executable balance model",
   ),
@@ -48,8 +55,10 @@ CLAIMED = {
           "Elements, proprietary/unknown and ELIP-100/102 fields and tap trees of every shape up to 8 leaves, medium faults aimed "
           "through the key-value segment map, and byzantine re-framings (duplicate pair, dropped mandatory pair, count off by one, "
           "wrong version, wrong preimage hash, key data on a keyless type). Oracle: value and byte round trip; for every accepted "
-          "delivery the canonical re-encoding decodes to an equal PSET and re-encodes to itself; forbidden framings are rejected."),
-    design_ref="DESIGN.md §4 C07, appendix D/E",
+          "delivery the canonical re-encoding decodes to an equal PSET and re-encodes to itself; forbidden framings are rejected. The "
+          "Global / Input / Output maps are swept as codec types of their own; 22 real PSETs of the repository's vectors (including "
+          "Elements-Core-made ones) are part of the workload."),
+    design_ref="DESIGN.md §4 C07, §12, appendix D/E",
     note=TRUST + " Interop byte-equality with Elements Core is not checked.",
     technique="deterministic simulation with fault injection: I/O seams + key-value-aware medium + byzantine PSET re-encoder, seeded search",
   ),
@@ -71,8 +80,10 @@ CLAIMED = {
           "RNG; between every two steps the PSET is serialized, carried by the medium (bytes or base64, chunked/EINTR; corrupted-then-"
           "retransmitted, duplicated, or the party forgets its result and redoes the step) and deserialized. Invariants per step (exactly "
           "one scalar added, foreign outputs untouched) and at the end (all marked outputs fully blinded, scalars empty, extracted "
-          "transaction verifies against the UTXOs, every output unblinds to the original, stored explicit-value/asset proofs verify)."),
-    design_ref="DESIGN.md §4 C09",
+          "transaction verifies against the UTXOs, every output unblinds to the original, stored explicit-value/asset proofs verify); a "
+          "blinder's PSET that cannot be serialized and passed on is a violation (C09.hop). Spent outputs of four blinding kinds, "
+          "1..3 assets, issuances and reissuances, blinder index at any input of the owning party."),
+    design_ref="DESIGN.md §4 C09, §12.2",
     note=TRUST + " Every party owning inputs blinds at least one output; collusion/privacy properties are not examined.",
     technique="deterministic simulation: seeded party schedule, per-party RNG seam, serialized hops with message faults and party amnesia",
   ),
@@ -92,11 +103,11 @@ CLAIMED = {
     text=("Every library call in every simulated world runs under catch_unwind with a counting global allocator armed (budget "
           "64 MiB + 32 x input length) inside a supervised child process, so unwinding panics, over-allocation AND non-unwinding deaths "
           "(allocation abort, SIGSEGV in the C library, stack overflow) are localised to a run, replayed in a fresh process and reported. "
-          "A dedicated surface world feeds 13 groups of fallible APIs (address/blech32/PSET text, scripts, control blocks, Schnorr "
+          "A dedicated surface world feeds 14 groups of fallible APIs (address/blech32/PSET text, scripts, control blocks, Schnorr "
           "signatures, proofs, commitments from slices, accessors on decoded transactions/blocks, PSET operations, blinding, taproot "
-          "builder, metadata) with what the medium delivers after faults on real encodings, random data, and structurally valid but "
+          "builder, metadata, integer-argument constructors) with what the medium delivers after faults on real encodings, random data, and structurally valid but "
           "semantically arbitrary arguments."),
-    design_ref="DESIGN.md §4 C10",
+    design_ref="DESIGN.md §4 C10, §12.2",
     note=TRUST + " Documented-panic conditions are excluded; stack depth and time complexity are not examined.",
     technique="deterministic simulation with fault injection: faulted inputs from the medium + allocator seam + supervised child process for aborts",
   ),
@@ -105,8 +116,10 @@ CLAIMED = {
     text=("One simulated signer issues seeded histories (<= 24 steps) of legacy / segwit-v0 / taproot digest queries, the three "
           "encode_signing_data_to forms into chunking/EINTR/hard-faulting writers, and witness_mut pushes against ONE SighashCache; "
           "each step is compared with a cache created fresh for that query (digest, bytes or error), later steps must still match "
-          "after a mid-message write error, One(i,p_i) must equal All(p) for ANYONECANPAY types and be an error otherwise."),
-    design_ref="DESIGN.md §4 C13",
+          "after a mid-message write error, One(i,p_i) must equal All(p) for ANYONECANPAY types and be an error otherwise; once a script "
+          "witness has been pushed through the cache, every answer must also equal that of a fresh cache over the original "
+          "transaction (no digest commits to script witnesses)."),
+    design_ref="DESIGN.md §4 C13, §12.2",
     note=TRUST + " Whether the digests are the consensus ones is C03 (not applicable). Same spent outputs throughout a history.",
     technique="deterministic simulation: seeded operation histories against a stateful object vs per-step fresh reference model, with write-fault injection",
   ),
